@@ -5,12 +5,12 @@ go 1.23.2
 require (
 	github.com/AdguardTeam/urlfilter v0.0.0
 	github.com/miekg/dns v1.1.61
+	golang.org/x/net v0.29.0
 )
 
 require (
 	github.com/AdguardTeam/golibs v0.29.0 // indirect
 	golang.org/x/exp v0.0.0-20240909161429-701f63a606c0 // indirect
-	golang.org/x/net v0.29.0 // indirect
 	golang.org/x/sys v0.25.0 // indirect
 )
 
